@@ -975,11 +975,12 @@ def explore(fn, max_paths=200000, timeout_ms=60000, stop_on_cex=True, want_witne
         except ProofFailed as e:
             res.stats.paths += 1
             res.status = "violation"
-            is_known = any(str(e.label).startswith(k) for k in known_prefixes)
+            kp = next((k for k in known_prefixes if str(e.label).startswith(k)), None)
+            is_known = kp is not None
             if is_known:
-                # a listed finding: keep two examples, keep exploring so that other violations are still seen
-                if sum(1 for c in res.cex if c.get("known")) < 2:
-                    res.cex.append({"label": e.label, "model": e.model, "extra": _jsonable(e.extra), "known": True})
+                # a listed finding: keep two examples of each, keep exploring so that other violations are still seen
+                if sum(1 for c in res.cex if c.get("known") == kp) < 2:
+                    res.cex.append({"label": e.label, "model": e.model, "extra": _jsonable(e.extra), "known": kp})
             else:
                 res.cex.append({"label": e.label, "model": e.model, "extra": _jsonable(e.extra)})
             if stop_on_cex or sum(1 for c in res.cex if not c.get("known")) >= max_cex:
